@@ -43,7 +43,7 @@ def main():
     tmp = tempfile.mkdtemp(prefix="dds_b_store_")
     violations, known = [], {}
     evals = 0
-    nseq = 150 if tier == "quick" else 1500
+    nseq = 300 if tier == "quick" else 3000
     samples = []
 
     def note(cls, what):
@@ -90,7 +90,12 @@ def main():
                         ks = [k for k in blobs]
                         if not ks:
                             continue
-                        m = OrderedDict((rnd.choice(pool), rnd.choice(ks)) for _ in range(rnd.randrange(1, 3)))
+                        # batches of 1..3 paths; often re-committing an already committed path together with new ones
+                        cand = list(pool)
+                        if paths and rnd.random() < 0.6:
+                            cand = list(paths)[:2] + cand
+                        kk = rnd.choice(ks)
+                        m = OrderedDict((p_, kk if rnd.random() < 0.7 else rnd.choice(ks)) for p_ in [rnd.choice(cand[:2]) if paths and rnd.random() < 0.5 else rnd.choice(pool)] + [rnd.choice(pool) for _ in range(rnd.randrange(0, 3))])
                         ops.append("sync(%s)" % dict(m))
                         try:
                             st.sync_paths(m)
